@@ -32,7 +32,7 @@ GETTERS = ['results', 'short', 'long', 'debug']
 
 
 def budget(tier):
-    return 5000 if tier == 'quick' else 50000
+    return 5000 if tier == 'quick' else 150000
 
 
 @st.composite
